@@ -3,6 +3,8 @@
 import json, glob, os, re
 rows = []
 for d in sorted(glob.glob('/verif/seeded/*')):
+    if not os.path.exists(d + '/meta.json'):
+        continue   # seeded/harmless/: behaviour-preserving rewrites (section 9.H)
     m = json.load(open(d + '/meta.json'))
     name = os.path.basename(d)
     s = (m.get('summary') or '')[:150].replace('|', '/').replace('\n', ' ')
